@@ -12,7 +12,7 @@ from .report import RuleResult, Violation
 from .guard import (Obl, dom_atoms, call_atom, has_call, agg_sites, calls_named, named_roots, roots_named, reach,
                     return_some_sites)
 from .tag import leaves, strip_casts
-from .table import Walk, Unknown, deref
+from .table import Walk, FreeWalk, Unknown, deref
 
 
 def proj_base(e):
@@ -486,30 +486,6 @@ def float_overflow_table(facts):
 
 
 # ------------------------------------------------------------------------------------------------ C05 (search contract)
-class FreeWalk(Walk):
-    """abstract walk in which every comparison whose operands are not concrete consumes one free oracle bit"""
-
-    def __init__(self, facts, b, oracle, args, bits):
-        Walk.__init__(self, facts, b, oracle, args)
-        self.bits = list(bits)
-        self.used = 0
-
-    def free(self):
-        if self.used >= len(self.bits):
-            raise Unknown("more than %d free comparisons" % len(self.bits))
-        v = self.bits[self.used]
-        self.used += 1
-        return v
-
-    def rvalue(self, rv):
-        if rv["k"] == "bin" and rv["op"] in ("Gt", "Lt", "Ge", "Le", "Eq", "Ne"):
-            a, c = self.operand(rv["o"][0]), self.operand(rv["o"][1])
-            if isinstance(a, (bool, int)) and isinstance(c, (bool, int)):
-                return Walk.rvalue(self, rv)
-            return self.free()
-        return Walk.rvalue(self, rv)
-
-
 ORD = {"Less": ("enum", 255, "Less"), "Equal": ("enum", 0, "Equal"), "Greater": ("enum", 1, "Greater")}
 
 
@@ -605,4 +581,168 @@ def search_contract(facts):
     else:
         r.ok(b.npath, "search-table", "Ok exactly on Equal, Err on Less/Greater (%d walked rows: 3 orderings x 1-2 elements x 2^%d free comparisons)" % (rows, NB))
     r.floor = 1
+    return r
+
+
+# ------------------------------------------------------------------------------------------------ C04 / C06 (matrix edge tuples)
+def _matrix_oracle(facts, dirs, trace):
+    def as_enum(v):
+        v = deref(v)
+        if isinstance(v, tuple) and v[0] == "enum":
+            return v
+        if isinstance(v, tuple) and v[0] == "opaque" and isinstance(v[1], str):
+            for i, d in enumerate(dirs):
+                if v[1].endswith("::" + d):
+                    return ("enum", i, d)
+        return None
+
+    def oracle(w, f, args, t):
+        np_ = norm_path(f["path"])
+        nm = last_seg(np_)
+        res = f.get("resolved", "")
+        if nm == "to_linearized_matrix_position":
+            trace.append(("cell", args[0], args[1]))
+            return ("opaque", "p")
+        if nm == "as_ref" and len(args) == 1:
+            return ("agg", "core::option::Option", "Some", [("ref", ("opaque", "cell"))], 1)
+        if nm == "new" and "NodeIndex" in np_:
+            return ("agg", "NodeIndex", "", [args[0]], None)
+        if nm == "next" and "matrix_graph::Edges" in res + f.get("self", ""):
+            eb = facts.find("«matrix_graph::Edges as core::iter::Iterator»::next")
+            if not eb:
+                raise Unknown("Edges::next not found")
+            sub = FreeWalk(facts, eb[0], oracle, {1: args[0]}, w.bits[w.used:])
+            v = sub.run()
+            w.used += sub.used
+            return v
+        if nm in ("eq", "ne") and len(args) == 2:
+            a, c = as_enum(args[0]), as_enum(args[1])
+            if a is None or c is None:
+                raise Unknown("comparison of %r and %r" % (args[0], args[1]))
+            return (a[1] == c[1]) == (nm == "eq")
+        if nm in ("map",) and np_.startswith("core::option::Option"):
+            opt, clo = args[0], args[1]
+            if isinstance(opt, tuple) and opt[0] == "enum":
+                return opt          # None
+            if not (isinstance(opt, tuple) and opt[0] == "agg" and opt[2] == "Some"):
+                raise Unknown("map on %r" % (opt,))
+            if not (isinstance(clo, tuple) and clo[0] == "agg" and str(clo[1]).startswith("closure:")):
+                raise Unknown("map with %r" % (clo,))
+            cb = facts.body(clo[1][len("closure:"):])
+            if cb is None:
+                raise Unknown("closure body")
+            sub = FreeWalk(facts, cb, oracle, {1: clo, 2: opt[3][0]}, w.bits[w.used:])
+            v = sub.run()
+            w.used += sub.used
+            return ("agg", "core::option::Option", "Some", [v], 1)
+        raise Unknown("call %s" % np_)
+    return oracle
+
+
+class _ClosureWalk(FreeWalk):
+    pass
+
+
+def _closure_agg_patch():
+    # closures as values: keep the closure's name and its captured operands
+    orig = Walk.rvalue
+
+    def rvalue(self, rv):
+        if rv["k"] == "agg" and rv.get("ak") == "closure":
+            return ("agg", "closure:" + rv["name"], "", [self.operand(o) for o in rv["o"]], None)
+        return orig(self, rv)
+    if not getattr(Walk, "_closure_patched", False):
+        Walk.rvalue = rvalue
+        Walk._closure_patched = True
+
+
+def matrix_edges_table(facts):
+    import itertools
+    _closure_agg_patch()
+    r = RuleResult("TABLE-MATRIXEDGES", "MatrixGraph's per-node iterators, walked over both scan directions: Edges::next yields for the occupied cell it read at "
+                                        "to_linearized_matrix_position(row, column) the tuple (row, column, w) - source = row, target = column, the orientation "
+                                        "under which a directed edge is stored - and Neighbors::next (composed with it) yields the scanned coordinate (the row for a "
+                                        "row scan = incoming neighbours, the column for a column scan)")
+    eb = facts.find("«matrix_graph::Edges as core::iter::Iterator»::next")
+    nb = facts.find("«matrix_graph::Neighbors as core::iter::Iterator»::next")
+    ea = facts.adts.get("matrix_graph::Edges")
+    da = facts.adts.get("matrix_graph::NeighborIterDirection")
+    if not eb or not nb or not ea or not da:
+        r.bad(Violation("TABLE-MATRIXEDGES", "matrix_graph::Edges::next", "anchor-missing", "src/matrix_graph.rs", 0,
+                        "Edges::next / Neighbors::next / Edges / NeighborIterDirection not found - fail closed"))
+        return r
+    fields = [f["name"] for f in ea["variants"][0]["fields"]]
+    dirs = [v["name"] for v in da["variants"]]
+    ROW, COL = ("sym", "ROW"), ("sym", "COL")
+
+    def self_val(di):
+        ops = []
+        for fn in fields:
+            ops.append({"iter_direction": ("enum", di, dirs[di]), "row": ROW, "column": COL}.get(fn, ("opaque", fn)))
+        return ("agg", "matrix_graph::Edges", "Edges", ops, 0)
+    NB = 3
+    for di, dname in enumerate(dirs):
+        scanned = ROW if dname == "Rows" else COL
+        # --- Edges::next
+        res = None
+        try:
+            for bits in itertools.product((False, True), repeat=NB):
+                trace = []
+                w = FreeWalk(facts, eb[0], _matrix_oracle(facts, dirs, trace), {1: ("ref", self_val(di))}, bits)
+                w.limit = 300
+                v = w.run(300)
+                if isinstance(v, tuple) and v[0] == "agg" and v[2] == "Some":
+                    tup = v[3][0]
+                    a, c = tup[3][0], tup[3][1]
+                    a = a[3][0] if isinstance(a, tuple) and a[0] == "agg" else a
+                    c = c[3][0] if isinstance(c, tuple) and c[0] == "agg" else c
+                    cells = [x for x in trace if x[0] == "cell"]
+                    res = (a, c, cells[-1][1:] if cells else None)
+                    break
+        except Unknown as e:
+            r.silent += 1
+            r.ok(eb[0].npath, "tuple-%s" % dname, "unrecognised construct (%s): silent" % e)
+            res = "silent"
+        if res == "silent":
+            pass
+        elif res is None:
+            r.bad(Violation("TABLE-MATRIXEDGES", eb[0].npath, "tuple-%s" % dname, eb[0].file, eb[0].line, "no walk of Edges::next yields an element for a %s scan" % dname))
+        else:
+            a, c, cell = res
+            ok = (a, c) == (ROW, COL) and (cell is None or tuple(cell) == (ROW, COL))
+            if ok:
+                r.ok(eb[0].npath, "tuple-%s" % dname, "%s scan yields (row, column) of the cell read" % dname)
+            else:
+                nm = {ROW: "row", COL: "column"}
+                r.bad(Violation("TABLE-MATRIXEDGES", eb[0].npath, "tuple-%s" % dname, eb[0].file, eb[0].line,
+                                "on a %s scan Edges::next yields (%s, %s) for the cell (row, column): the edge reference names the edge column -> row, which "
+                                "is not the stored edge row -> column - edges_directed(a, Incoming) on a directed MatrixGraph (and Reversed(&g).edges(a)) "
+                                "reports every incoming edge r -> a as a -> r" % (dname, nm.get(a, a), nm.get(c, c))))
+        # --- Neighbors::next composed with Edges::next
+        res = None
+        try:
+            for bits in itertools.product((False, True), repeat=NB):
+                trace = []
+                nself = ("agg", "matrix_graph::Neighbors", "Neighbors", [self_val(di)], 0)
+                w = FreeWalk(facts, nb[0], _matrix_oracle(facts, dirs, trace), {1: ("ref", nself)}, bits)
+                v = w.run(400)
+                if isinstance(v, tuple) and v[0] == "agg" and v[2] == "Some":
+                    x = v[3][0]
+                    res = x[3][0] if isinstance(x, tuple) and x[0] == "agg" else x
+                    break
+        except Unknown as e:
+            r.silent += 1
+            r.ok(nb[0].npath, "neighbor-%s" % dname, "unrecognised construct (%s): silent" % e)
+            res = "silent"
+        if res == "silent":
+            pass
+        elif res is None:
+            r.bad(Violation("TABLE-MATRIXEDGES", nb[0].npath, "neighbor-%s" % dname, nb[0].file, nb[0].line, "no walk of Neighbors::next yields an element for a %s scan" % dname))
+        elif res == scanned:
+            r.ok(nb[0].npath, "neighbor-%s" % dname, "%s scan yields the scanned coordinate" % dname)
+        else:
+            r.bad(Violation("TABLE-MATRIXEDGES", nb[0].npath, "neighbor-%s" % dname, nb[0].file, nb[0].line,
+                            "on a %s scan Neighbors::next yields the fixed coordinate (the queried node itself) instead of the scanned one: "
+                            "neighbors_directed(a, %s) returns a for every neighbour" % (dname, "Incoming" if dname == "Rows" else "Outgoing")))
+    r.floor = 4
     return r
